@@ -1,6 +1,13 @@
 package ircserver
 
-import "gopkg.in/sorcix/irc.v2"
+import (
+	"strings"
+
+	"gopkg.in/sorcix/irc.v2"
+)
+
+// maxUserLen is the maximum length (in bytes) of a username.
+const maxUserLen = 30
 
 func init() {
 	Commands["USER"] = &ircCommand{
@@ -24,6 +31,13 @@ func (i *IRCServer) cmdUser(s *Session, reply *Replyctx, msg *irc.Message) {
 	// We keep the username (so that bans are more effective) and realname
 	// (some people actually set it and look at it).
 	s.Username = msg.Params[0]
+	// Like other IRC servers (USERLEN), limit the length of the username: it
+	// is part of the prefix of every message relayed on behalf of this
+	// session, and messages are cut off after 510 bytes, so an overly long
+	// username would leave no room for the command.
+	if len(s.Username) > maxUserLen {
+		s.Username = strings.ToValidUTF8(s.Username[:maxUserLen], "")
+	}
 	s.Realname = msg.Trailing()
 	s.updateIrcPrefix()
 	i.maybeLogin(s, reply, msg)
